@@ -360,6 +360,34 @@ def f12_signature(itr, verdict):
         return False
 
 
+def gen_draining_supervisor(rng):
+    """A supervisor with a custom supervision handler has drain() requested while it is parked in a
+    handler with a backlog behind it; meanwhile its children stop / are killed / fail / start.  It is
+    alive and still serves its supervision port: every child's events must be handled before the next
+    backlog message (seeded regression C04-3: supervision events rejected once the receiver is
+    Draining)."""
+    trivial = ([], ("ok",))
+    nk = rng.choice([1, 2, 2, 3])
+    actors = [{"pre": trivial, "ps": trivial, "stop": ([("t",)], ("ok",)), "sup": ([("t",)] * rng.choice([0, 1]), ("ok",)), "link": None}]
+    for i in range(1, nk + 1):
+        actors.append({"pre": trivial, "ps": trivial, "stop": ([("t",)] * rng.choice([0, 1]), ("ok",)), "sup": None, "link": 0})
+    msgs = {1: ([("g", 1)], ("ok",)), 2: ([("t",)], ("ok",)), 3: trivial, 4: ([("t",)], (rng.choice(["e", "p"]), 5))}
+    ops = [("spawn", 0), ("settle",)]
+    late = [i for i in range(1, nk + 1) if rng.random() < 0.3]
+    for i in range(1, nk + 1):
+        if i not in late:
+            ops += [("spawn", i), ("settle",)]
+    ops += [("send", 0, 1)] + [("send", 0, rng.choice([2, 3]))] * rng.choice([1, 2, 3]) + [("settle",), ("drain", 0), ("settle",)]
+    for i in range(1, nk + 1):
+        if i in late:
+            ops += [("spawn", i)]          # a linked spawn under a draining supervisor is refused
+        else:
+            ops += [rng.choice([("stop", i, None), ("kill", i), ("drain", i), ("send", i, 4), ("stop", i, 10)])]
+        ops += [("settle",)]
+    ops += [("open", 1), ("settle",)]
+    return {"actors": actors, "msgs": msgs, "ops": ops}
+
+
 def gen_fail_with_pending_stop(rng):
     """A callback after pre_start fails (Err or panic) while a graceful stop / drain request for the
     same actor is already pending: the handler itself asked for the stop before failing, or an outside
@@ -1175,6 +1203,8 @@ def run_loop_check(chk, oracle_fn, focus, what, accept=lambda o: o == "true", co
             scs.append(gen_abort_before_first_poll(chk.rng))
         elif k % 40 == 29:
             scs.append(gen_request_during_post_start(chk.rng))
+        elif k % 40 == 9:
+            scs.append(gen_draining_supervisor(chk.rng))
         elif k % 20 == 9:
             scs.append(gen_wire_handler_fails(chk.rng))
         elif k % 20 == 11:
